@@ -414,39 +414,58 @@ def file_sig(p):
     return (st.st_ino, st.st_mtime_ns, st.st_size)
 
 
-def run_history(ops, col, inp):
-    """ops: [[op, tick], ...] with op in W, Dfai, Dagp, L.  Returns number of auto-loads judged."""
+LOAD_OPS = {
+    # op: (what is loaded, method, description)
+    "L": ("new", "auto_load", "auto-load on a new FastaIndex object"),
+    "Lo": ("same", "auto_load", "auto-load on the FastaIndex object that lives through the whole history"),
+    "R": ("new", "run_indexing", "run_indexing() on a new FastaIndex object"),
+    "Ro": ("same", "run_indexing", "run_indexing() on the FastaIndex object that lives through the whole history"),
+}
+
+
+def run_history(ops, col, inp, same_size_family=False):
+    """
+    ops: [[op, tick], ...] with op in W (rewrite, other size), Ws (rewrite, same size in bytes; needs same_size_family),
+    Dfai, Dagp, D (both), and the loads of LOAD_OPS.  All in this process.  Returns number of loads judged.
+    """
     judged = 0
     with tempfile.TemporaryDirectory() as d:
         fa = os.path.join(d, "asm.fa")
         caches = [fa + ".fai", fa + ".agp"]
-        version = 0
-        data = make_fasta(version)
+        content = Content(same_size_family)
+        data = content.data
         with open(fa, "wb") as fh:
             fh.write(data)
         t = T0
         os.utime(fa, (t, t))
+        long_lived = FastaIndex(pathlib.Path(fa))
         for step, (op, tick) in enumerate(ops):
             t += tick
-            if op == "W":
-                version += 1
-                data = make_fasta(version)
+            if op in ("W", "Ws"):
+                size = len(data)
+                data = content.rewrite(same_size=op == "Ws")
+                assert not same_size_family or (len(data) == size) == (op == "Ws")
                 with open(fa, "wb") as fh:
                     fh.write(data)
                 os.utime(fa, (t, t))
-            elif op in ("Dfai", "Dagp"):
-                p = caches[0 if op == "Dfai" else 1]
-                if os.path.exists(p):
-                    os.unlink(p)
+            elif op in ("Dfai", "Dagp", "D"):
+                for p, o in zip(caches, ("Dfai", "Dagp")):
+                    if op in (o, "D") and os.path.exists(p):
+                        os.unlink(p)
             else:
+                which, method, what = LOAD_OPS[op]
                 before = [file_sig(p) for p in caches]
                 fasta_mtime = os.stat(fa).st_mtime
                 need_rebuild = any(b is None or not (os.stat(p).st_mtime > fasta_mtime) for p, b in zip(caches, before))
-                obs = observe(fa)
+                obs = observe(fa, long_lived if which == "same" else None, method)
                 judged += 1
                 msg = judge(obs, data)
                 if msg:
-                    col.fail(f"history {ops[: step + 1]}: the auto-load at step {step + 1} (FASTA version {version}) shows a wrong cache: {msg}", inp)
+                    col.fail(
+                        f"history {ops[: step + 1]} in one process: the {what} at step {step + 1} (FASTA content {content.version}.{content.j}, "
+                        f"{len(data)} bytes) silently yields something else than the current FASTA content: {msg}",
+                        inp,
+                    )
                     return judged
                 written = []
                 for p, b in zip(caches, before):
@@ -456,8 +475,16 @@ def run_history(ops, col, inp):
                         os.utime(p, (t, t))
                 if obs[0] == "ok" and need_rebuild and len(written) != 2:
                     col.fail(
-                        f"history {ops[: step + 1]}: a cache file was missing or not newer than the FASTA, but the auto-load rewrote only "
+                        f"history {ops[: step + 1]}: a cache file was missing or not newer than the FASTA, but the {what} rewrote only "
                         f"{[os.path.basename(p) for p in written]} (both must be rebuilt together)",
+                        inp,
+                    )
+                    return judged
+                msg = cache_on_disk_claim(fa, data)
+                if msg:
+                    col.fail(
+                        f"history {ops[: step + 1]}: after step {step + 1} ({what}) the cache files on disk are both newer than the FASTA, so "
+                        f"every later process takes them as valid, but they do not describe the FASTA content: {msg}",
                         inp,
                     )
                     return judged
@@ -470,6 +497,24 @@ def histories(max_len):
         for prefix in itertools.product(symbols, repeat=n - 1):
             for tick in (0, 1):
                 yield [list(s) for s in prefix] + [["L", tick]]
+
+
+SESSION_SYMBOLS = [("Ws", 0), ("Ws", 1), ("W", 1), ("D", 1), ("L", 1), ("Lo", 1), ("R", 1), ("Ro", 1)]
+
+
+def session_histories(max_len):
+    """(e): histories of one process with same-size rewrites and loads on new / long-lived objects, ending in a load"""
+    last = [s for s in SESSION_SYMBOLS if s[0] in LOAD_OPS]
+    for n in range(1, max_len + 1):
+        for prefix in itertools.product(SESSION_SYMBOLS, repeat=n - 1):
+            for end in last:
+                yield [list(s) for s in prefix] + [list(end)]
+
+
+def random_session_history(rng, length):
+    symbols = SESSION_SYMBOLS + [("Dfai", 1), ("Dagp", 1), ("W", 0), ("L", 0)]
+    ops = [list(rng.choice(symbols)) for _ in range(length - 1)]
+    return ops + [list(rng.choice([s for s in symbols if s[0] in LOAD_OPS]))]
 
 
 # ------------------------------------------------------------------ scenarios for (b) and (c): real clock, FASTA in the past
@@ -553,6 +598,79 @@ def crash_experiment(scenario, big, k, col, inp, labels=None):
                 inp,
             )
         return crashed
+
+
+# ------------------------------------------------------------------ (d) exceptions raised inside the indexing run
+
+EXC_KINDS = ("interrupt", "oserror", "exit")
+
+
+def raise_injected(kind):
+    if kind == "interrupt":
+        if threading.current_thread() is threading.main_thread() and signal.getsignal(signal.SIGINT) is signal.default_int_handler:
+            signal.raise_signal(signal.SIGINT)  # a real Ctrl-C: the handler raises KeyboardInterrupt right here
+            time.sleep(0)
+        raise KeyboardInterrupt("injected")
+    if kind == "oserror":
+        raise OSError(errno.ENOSPC, "No space left on device (injected)")
+    raise SystemExit("injected (e.g. SIGTERM handler calling sys.exit)")
+
+
+def exception_experiment(scenario, big, k, kind, col, inp, labels=None):
+    """the indexing run gets an exception of `kind` at event k (file operation or text-handle write); then a fresh auto-load"""
+    with tempfile.TemporaryDirectory() as d:
+        fa, cur = setup_scenario(d, scenario, big)
+        n = [0]
+        fired = [False]
+
+        def hook(label, path):
+            n[0] += 1
+            if n[0] == k + 1:
+                fired[0] = True
+                raise_injected(kind)
+
+        victim = FastaIndex(pathlib.Path(fa))
+        with FileOps(d, hook, text_events=True):
+            try:
+                victim.auto_load()
+                outcome = "returned normally"
+            except BaseException as e:
+                if not fired[0] and not isinstance(e, Exception):
+                    raise  # not ours (a real Ctrl-C of the check itself)
+                outcome = f"ended in {type(e).__name__}"
+        where = f"at event {k + 1}" + (f" ({labels[k]})" if labels and k < len(labels) else "")
+        head = f"{'big' if big else 'small'} input, cache state '{scenario}': indexing run hit by {kind} {where} and {outcome}; "
+        if fired[0] and outcome == "returned normally":
+            msg = judge(("ok", *snapshot(victim)), cur)
+            if msg:
+                col.fail(head + f"the run itself silently carries on with: {msg}", inp)
+        msg = judge(observe(fa), cur)
+        if msg:
+            col.fail(head + f"the next auto-load silently shows: {msg}", inp)
+        else:
+            msg = cache_on_disk_claim(fa, cur)
+            if msg:
+                col.fail(head + f"the cache files left on disk pass for valid (both newer than the FASTA) but: {msg}", inp)
+        return fired[0]
+
+
+def exception_points(scenario, big, quick):
+    """(total, labels, ks): event numbers at which to inject.  All of them for the small input; for the big input every file
+    operation, and of the ~4000 text-handle writes the first and last three of each file plus an even spread."""
+    total, labels = count_events(scenario, big, text_events=True)
+    if not big:
+        return total, labels, list(range(total + 1))
+    ks = {total}
+    text = [k for k, lab in enumerate(labels) if lab.startswith("text-write")]
+    ks.update(k for k, lab in enumerate(labels) if not lab.startswith("text-write"))
+    by_file = {}
+    for k in text:
+        by_file.setdefault(labels[k], []).append(k)
+    for lst in by_file.values():
+        ks.update(lst[:3] + lst[-3:])
+        step = max(1, len(lst) // (6 if quick else 60))
+        ks.update(lst[::step])
+    return total, labels, sorted(ks)
 
 
 # ------------------------------------------------------------------ (c) interleavings
